@@ -81,6 +81,11 @@ def run_case(case, n):
                   select_samples=cf['select'],
                   ignore_conversions=(None if cf['ignore'] is None else set(tuple(x) for x in cf['ignore'])),
                   chrom=cf['chrom'])
+        # region-restricted loading: the two options are passed only when the case sets them
+        if cf.get('rstart') is not None:
+            kw['region_start'] = cf['rstart']
+        if cf.get('rend') is not None:
+            kw['region_end'] = cf['rend']
         buf = io.StringIO()
         old = sys.stdout
         sys.stdout = buf
@@ -164,13 +169,19 @@ def run_group(group, n):
     return {'answers': answers, 'caches': [read_cache_dir(p_) for p_ in paths], 'read_pairs': read_pairs}
 
 
-def read_cache_text(text, n):
-    """the real read_cached on an arbitrary cache file"""
+def read_cache_text(text, n, window=None):
+    """the real read_cached on an arbitrary cache file (optionally under a window)"""
     from singlecellmultiomics.alleleTools import AlleleResolver
     path = os.path.join(os.environ['SCMO_SCRATCH'], 'cache%d.tsv.gz' % n)
     with gzip.open(path, 'wb') as f:
         f.write(text.encode('utf-8'))
-    ar = AlleleResolver()          # no vcf: an empty resolver
+    kw = {}
+    if window is not None:
+        if window[0] is not None:
+            kw['region_start'] = window[0]
+        if window[1] is not None:
+            kw['region_end'] = window[1]
+    ar = AlleleResolver(**kw)      # no vcf: an empty resolver
     raised = None
     try:
         ar.read_cached(path, 'c')
@@ -182,7 +193,8 @@ def read_cache_text(text, n):
 
 def handler(p):
     if 'cache_texts' in p:
-        return {'texts': [read_cache_text(t, n) for n, t in enumerate(p['cache_texts'])]}
+        wins = p.get('cache_windows') or [None] * len(p['cache_texts'])
+        return {'texts': [read_cache_text(t, n, w) for n, (t, w) in enumerate(zip(p['cache_texts'], wins))]}
     if 'groups' in p:
         out = []
         for n, g in enumerate(p['groups']):
